@@ -44,7 +44,11 @@ pub(crate) struct ConnectionState {
     pub(crate) conn: quinn_proto::Connection,
     pub(crate) error: Option<ConnectionError>,
     connected: bool,
+    /// Handle of the task driving the connection. It stays here until that task
+    /// is done, so that nobody can cancel the task by dropping the handle.
     worker: Option<JoinHandle<()>>,
+    /// Woken when the worker task is done (the connection is drained).
+    on_closed: VecDeque<Waker>,
     poller: Option<Waker>,
     on_connected: Option<Waker>,
     on_handshake_data: Option<Waker>,
@@ -145,6 +149,7 @@ impl ConnectionInner {
                 connected: false,
                 error: None,
                 worker: None,
+                on_closed: VecDeque::new(),
                 poller: None,
                 on_connected: None,
                 on_handshake_data: None,
@@ -290,10 +295,12 @@ impl ConnectionInner {
             }
         }
 
+        let mut state = self.state();
         // Break the reference cycle.
-        if let Some(worker) = self.state().worker.take() {
+        if let Some(worker) = state.worker.take() {
             worker.detach();
         }
+        state.on_closed.drain(..).for_each(Waker::wake);
     }
 }
 
@@ -653,13 +660,25 @@ impl Connection {
     }
 
     /// Wait for the connection to be closed for any reason.
+    ///
+    /// This can be awaited any number of times, also concurrently, and dropping
+    /// the future has no effect on the connection.
     pub async fn closed(&self) -> ConnectionError {
-        let worker = self.0.state().worker.take();
-        if let Some(worker) = worker {
-            let _ = worker.await;
-        }
-
-        self.0.try_state().unwrap_err()
+        future::poll_fn(|cx| {
+            let mut state = self.0.state();
+            // The worker gives its handle up when it is done, which is after the
+            // connection has been terminated and drained.
+            if state.worker.is_none()
+                && let Some(error) = &state.error
+            {
+                return Poll::Ready(error.clone());
+            }
+            if !state.on_closed.iter().any(|w| w.will_wake(cx.waker())) {
+                state.on_closed.push_back(cx.waker().clone());
+            }
+            Poll::Pending
+        })
+        .await
     }
 
     /// If the connection is closed, the reason why.
